@@ -14,6 +14,11 @@ from tqv import gen, ref, sdp_ref
 from tqv.core import Inconclusive, SubCheck, Violation, req
 from tqv.props import _ens
 
+# caller-owned arrays handed to the library must come back unchanged (see tqv/purity.py)
+from tqv.purity import install as _install_purity  # noqa: E402
+
+_install_purity('toqito.state_opt', 'toqito.state_props', 'toqito.matrix_ops')
+
 PROPERTY = "C10"
 RULE = (
     "Ensembles are drawn by Hypothesis: family (generic kets, orthogonal set = columns of a drawn unitary, linearly "
